@@ -81,7 +81,7 @@ func HasClientConditional(rq *world.Req) bool {
 // starts at sequence number beforeSeq: the original, and one (two, with/without restarted
 // clocks) per 304 received for R earlier.
 func Versions(o *world.Obs, r *world.Call, beforeSeq int64) []model.Version {
-	v0 := model.Version{Status: r.Status, Header: r.RespHdr.Clone(), ReqNs: r.StartNs, RespNs: r.EndNs, Why: "original"}
+	v0 := model.Version{Status: r.Status, Header: r.RespHdr.Clone(), ReqNs: r.StartNs, RespNs: r.EndNs, Why: "original", Req: r.Header}
 	out := []model.Version{v0}
 	etag := r.RespHdr.Get("Etag")
 	var c304 []*world.Call
@@ -106,8 +106,8 @@ func Versions(o *world.Obs, r *world.Call, beforeSeq int64) []model.Version {
 	cur := v0
 	for _, c := range c304 {
 		merged := model.Merge304(cur.Header, c.RespHdr, c.EndNs)
-		restarted := model.Version{Status: r.Status, Header: merged, ReqNs: c.StartNs, RespNs: c.EndNs, Why: "304 s" + strconv.Itoa(c.Serial)}
-		keptClock := model.Version{Status: r.Status, Header: merged, ReqNs: cur.ReqNs, RespNs: cur.RespNs, Why: "304 s" + strconv.Itoa(c.Serial) + " (old clock)"}
+		restarted := model.Version{Status: r.Status, Header: merged, ReqNs: c.StartNs, RespNs: c.EndNs, Why: "304 s" + strconv.Itoa(c.Serial), Req: c.Header}
+		keptClock := model.Version{Status: r.Status, Header: merged, ReqNs: cur.ReqNs, RespNs: cur.RespNs, Why: "304 s" + strconv.Itoa(c.Serial) + " (old clock)", Req: c.Header}
 		out = append(out, restarted, keptClock)
 		cur = restarted
 	}
